@@ -71,6 +71,8 @@ def _evidence(prop: str, tier: str, seed: int, agg: Any, wall: float, rc: int) -
         "counters": stats,
         "known_findings_hit": dict(agg.known),
         "harness_errors": len(agg.harness_errors),
+        "worker_failures": getattr(agg, "worker_failures", 0),
+        "runs_skipped_for_resources": stats.get("skipped:resource", 0),
         "components": COMPONENTS,
         "exhaustive": False,
     }
@@ -100,8 +102,11 @@ def cmd_check(args: argparse.Namespace) -> int:
     rc, agg, wall = runner.run_check(prop, tier, seed, budget=args.budget, max_runs=args.runs,
                                      workers=args.workers)
     ev = _evidence(prop, tier, seed, agg, wall, rc)
-    os.makedirs(os.path.join(VERIF, "evidence"), exist_ok=True)
-    with open(os.path.join(VERIF, "evidence", f"{prop}.json"), "w") as f:
+    # CIRSIM_EVIDENCE_DIR / CIRSIM_REPLAY_DIR: only the sensitivity self-test (mutants/) sets
+    # them, so that runs against a mutated scratch copy do not overwrite the real evidence
+    evdir = os.environ.get("CIRSIM_EVIDENCE_DIR") or os.path.join(VERIF, "evidence")
+    os.makedirs(evdir, exist_ok=True)
+    with open(os.path.join(evdir, f"{prop}.json"), "w") as f:
         json.dump(ev, f, indent=1, sort_keys=True)
     known = runner.load_known()
     for fnd in known.get("findings", []):
@@ -137,7 +142,7 @@ def _verify_replay(path: str) -> bool:
     import subprocess
 
     env = dict(os.environ)
-    env["PYTHONPATH"] = VERIF
+    env["PYTHONPATH"] = VERIF + (os.pathsep + env["PYTHONPATH"] if env.get("PYTHONPATH") else "")
     env["PYTHONHASHSEED"] = "1"
     try:
         p = subprocess.run([sys.executable, "-m", "cirsim.cli", "_replay_quiet", path],
